@@ -38,6 +38,10 @@ type Job struct {
 	// replay: how many of the file's history plans (counted from the end) are executed before the plan;
 	// negative = all of them
 	HistoryLen int `json:"history_len"`
+	// explore: first plan index of this process (plus Worker), and isolated mode: one plan per process - the
+	// driver's fallback when runs cannot share a process; no re-execution and no in-process shrinking then
+	FirstIndex int  `json:"first_index"`
+	Isolated   bool `json:"isolated"`
 }
 
 // Known is an open known finding.
@@ -201,14 +205,17 @@ func explore(t *testing.T, l core.Lens, job *Job, emit func(rec)) {
 			}
 			found[dk] = true
 			// shrink, write the replay, report
-			min, runs := core.Shrink(t, l, plan, v.Class, 300, 60*time.Second)
-			mres := core.RunPlan(t, l, min, false)
+			min, runs, mres := plan, 0, res
 			mv := v
 			minimised := false
-			for _, x := range mres.Violations {
-				if x.Class == v.Class {
-					mv, minimised = x, true
-					break
+			if !job.Isolated {
+				min, runs = core.Shrink(t, l, plan, v.Class, 300, 60*time.Second)
+				mres = core.RunPlan(t, l, min, false)
+				for _, x := range mres.Violations {
+					if x.Class == v.Class {
+						mv, minimised = x, true
+						break
+					}
 				}
 			}
 			if !minimised {
@@ -253,8 +260,8 @@ func explore(t *testing.T, l core.Lens, job *Job, emit func(rec)) {
 			remember(rf.Plan)
 		}
 	}
-	for idx := job.Worker; ; idx += job.Workers {
-		if job.MaxRuns > 0 && st.Runs >= job.MaxRuns {
+	for idx := job.FirstIndex + job.Worker; ; idx += job.Workers {
+		if job.MaxRuns != 0 && st.Runs >= job.MaxRuns {
 			break
 		}
 		if time.Now().After(deadline) {
@@ -269,7 +276,7 @@ func explore(t *testing.T, l core.Lens, job *Job, emit func(rec)) {
 		handle(plan, res, idx)
 		remember(plan)
 		// determinism sample: re-execute 1 in 64 and compare fingerprints and verdicts
-		if st.Runs%64 == 1 {
+		if st.Runs%64 == 1 && !job.Isolated {
 			res2 := core.RunPlan(t, l, plan, false)
 			st.DetCompared++
 			if res2.Hash == res.Hash && res2.Abstract == res.Abstract && len(res2.Violations) == len(res.Violations) {
